@@ -78,7 +78,13 @@ fn enc_value(v: &Value, out: &mut Vec<u8>) -> Result<()> {
             out.push(if *b { 0xf5 } else { 0xf4 });
         }
         Value::Null => out.push(0xf6),
-        Value::Integer(n) => enc_int(i128::from(*n), out),
+        Value::Integer(n) => {
+            // The decoder limits integers to i64/u64; refuse what it would not read back.
+            if i128::from(*n) < i128::from(i64::MIN) {
+                return Err(CanonError::Encode("integer out of range".into()));
+            }
+            enc_int(i128::from(*n), out);
+        }
         Value::Float(f) => enc_float(*f, out),
         Value::Text(s) => enc_text(s, out)?,
         Value::Bytes(b) => enc_bytes(b, out)?,
@@ -144,18 +150,10 @@ fn enc_float(f: f64, out: &mut Vec<u8>) {
         write_half(h, out);
         return;
     }
-    if f.fract() == 0.0 {
-        // i128 range: approximately ±1.7e38; f64 can represent up to ±1.8e308
-        // Check range before casting to avoid overflow/UB
-        const I128_MAX_F: f64 = i128::MAX as f64;
-        const I128_MIN_F: f64 = i128::MIN as f64;
-        if (I128_MIN_F..=I128_MAX_F).contains(&f) {
-            let i = f as i128;
-            if i as f64 == f {
-                enc_int(i, out);
-                return;
-            }
-        }
+    if is_exact_int(f) {
+        // Exact: `is_exact_int` bounds `f` to the i64/u64 integer range.
+        enc_int(f as i128, out);
+        return;
     }
     let h = f16::from_f64(f);
     if h.to_f64() == f {
@@ -354,6 +352,10 @@ fn dec_value(bytes: &[u8], idx: &mut usize) -> Result<Value> {
             22 => Ok(Value::Null),
             25 => {
                 let f = read_f(bytes, idx, 2)?;
+                // The encoder writes every NaN as f16 0x7e00; other NaN payloads are not canonical.
+                if f.is_nan() && bytes[*idx - 2..*idx] != [0x7e, 0x00] {
+                    return Err(CanonError::NonCanonicalFloat);
+                }
                 if is_exact_int(f) {
                     return Err(CanonError::FloatShouldBeInt);
                 }
@@ -397,8 +399,8 @@ fn is_exact_int(f: f64) -> bool {
     if f.fract() != 0.0 {
         return false;
     }
-    let i = f as i128;
-    i as f64 == f
+    // Integers are limited to the i64/u64 range the decoder accepts: [-2^63, 2^64).
+    (-9_223_372_036_854_775_808.0..18_446_744_073_709_551_616.0).contains(&f)
 }
 
 fn can_fit_f16(f: f64) -> bool {
